@@ -8,7 +8,7 @@ PLAN = {
     # property: (machine module, runs quick, runs thorough, cfg)
     'C09': ('machines.hist', 400, 20000, {}),
     'C11': ('machines.peer', 600, 20000, {}),
-    'C17': ('machines.multi', 800, 40000, {}),
+    'C17': ('machines.multi', 1400, 40000, {}),
     'C19': ('machines.det', 400, 30000, {}),
     'C13': ('machines.part', 3000, 200000, {}),
     'C12': ('machines.part', 3000, 200000, {}),
